@@ -72,6 +72,8 @@ class ExprMixin:
                 if r is not None:
                     return r
                 raise Unsupported(f'cannot resolve {m}.{n}')
+            if f'{m}.{n}' == 'beancount.core.number.ZERO':
+                return SDec(int2dec(0))
             return SBuiltin(f'{m}.{n}')
         if name in BUILTIN_NAMES or name in EXC_PARENTS or name in ('Exception', 'BaseException'):
             return SBuiltin(name)
@@ -257,6 +259,9 @@ class ExprMixin:
             return b.t == Val.VBool(a.t)
         if isinstance(a, (SDyn, SClass, SObj, SBuiltin)) and isinstance(b, (SDyn, SClass, SObj, SBuiltin)):
             return self.to_val(a) == self.to_val(b)
+        prim = (SInt, SBool, SStr, SDec, SDate, STd)
+        if isinstance(a, prim) and isinstance(b, prim) and type(a) is not type(b):
+            return z3.BoolVal(False)
         raise Unsupported(f'is between {a!r} and {b!r}')
 
     def equal(self, fr, a, b, node=None):
@@ -662,6 +667,8 @@ class ExprMixin:
             return self.date_part(base, name)
         if isinstance(base, (SSeq, STuple, SStr, SSet, SInt, SDec, SDate, STd, SIter)):
             return SBuiltin('m.' + name, base)
+        if isinstance(base, SBuiltin) and base.self_ is None and not base.name.startswith(('m.', 'spec.', 'dynmeth!', 'exc!')):
+            return SBuiltin(f'{base.name}.{name}')
         if isinstance(base, SSlice) and name in ('start', 'stop', 'step'):
             return {'start': base.lo, 'stop': base.hi, 'step': base.step}[name]
         raise Unsupported(f'attribute {name} of {base!r}')
